@@ -284,7 +284,7 @@ func (w *vWorld) step() {
 		w.copyAccessorWrite()
 		return
 	}
-	switch t.Pick([]int{10, 6, 5, 14, 14, 2}) {
+	switch t.Pick([]int{10, 6, 5, 14, 14, 2, 3}) {
 	case 0:
 		w.newView()
 	case 1: // direct element write through a handle
@@ -313,7 +313,70 @@ func (w *vWorld) step() {
 		w.readingOp()
 	case 5:
 		w.tip()
+	case 6:
+		w.parentAsOperand()
 	}
+}
+
+// parentAsOperand: a view as the receiver of a product whose right operand is
+// the matrix it is a view of ("every public operation taking the view as
+// receiver or operand").  The library either rejects the aliasing loudly or
+// gives what an independent receiver gives.
+func (w *vWorld) parentAsOperand() {
+	t := w.c.Tape
+	root := w.hs[0]
+	var cands []*vHandle
+	for _, h := range w.hs[1:] {
+		if h.m == nil || h.readonly || h.snapshot || h.rows == 0 || h.cols != w.C || w.C == 0 {
+			continue
+		}
+		// rows r0..r0+rows of the root, all columns, not transposed
+		r0, ok := h.at(0, 0)/w.C, true
+		for i := 0; i < h.rows && ok; i++ {
+			for j := 0; j < h.cols; j++ {
+				if h.at(i, j) != (r0+i)*w.C+j {
+					ok = false
+					break
+				}
+			}
+		}
+		if ok {
+			cands = append(cands, h)
+		}
+	}
+	if len(cands) == 0 {
+		return
+	}
+	h := cands[t.Choose(len(cands))]
+	a := mkMatrix(w.e, t.Bool(1, 2), h.rows, w.R, randVals(t, w.e, h.rows*w.R))
+	var cp, rootCopy ad.Matrix
+	w.guard("deep-copy", func() { cp, rootCopy = w.deepCopy(h), w.deepCopy(root) })
+	w.c.Logf("%s.MdotM(a, root) with a = %dx%d %v [%s]: the receiver is a view of the right operand", h.name, h.rows, w.R, valuesOf(a), h.kinds)
+	if pv, _ := core.Try(func() { h.m.MdotM(a, root.m) }); pv != nil {
+		// rejected: nothing may have changed (the regular checks follow)
+		w.c.Count("aliasing-rejected-by-the-library")
+		return
+	}
+	w.viewOps++
+	w.c.Count("view-op:MdotM-with-the-parent-as-operand")
+	if pv, _ := core.Try(func() { cp.MdotM(a, rootCopy) }); pv != nil {
+		// the independent product fails (an element type problem, not a view problem)
+		w.c.Count("both-panicked:MdotM")
+		return
+	}
+	want := obsMatrix("", cp)
+	for i := 0; i < h.rows; i++ {
+		for j := 0; j < h.cols; j++ {
+			var got cellObs
+			w.guard("ConstAt", func() { got = readCell(h.cm.ConstAt(i, j)) })
+			if !got.equal(want.cells[i*h.cols+j]) {
+				w.fail("view-vs-deep-copy", "MdotM-with-the-parent-as-operand|contents-differ", "%s.MdotM(a, root) [%s]: element (%d,%d) = %s, an independent receiver with a copy of the root holds %s", h.name, h.kinds, i, j, got, want.cells[i*h.cols+j])
+			}
+			w.st[h.at(i, j)] = want.cells[i*h.cols+j].v
+		}
+	}
+	w.muts++
+	w.dropSnapshots()
 }
 
 func (w *vWorld) mutatedBy(h *vHandle) {
